@@ -249,10 +249,10 @@ def generate(rng, tier):
     big = tier != "quick"
     cases = []
     # (a) paging
-    for _ in range(700 if not big else 30000):
+    for _ in range(700 if not big else 12000):
         cases.append(_gen_page(rng, big))
     # (b) index readers: every cut point of well-formed responses
-    for i in range(14 if not big else 150):
+    for i in range(14 if not big else 120):
         short = not (i % 5 == 0)
         w = _render(_wellformed(rng, 3 if not big else 6, short))
         cases += [f"idxcut {hx(w)}", f"gidxcut {hx(w)}", f"idx 200 {hx(w)}", f"gidx 200 {hx(w)}"]
@@ -261,7 +261,7 @@ def generate(rng, tier):
             cases += [f"idxabort {hx(a)}", f"gidxabort {hx(a)}"]
     for w in (b"\n", _render([b"a+1 1"])):
         cases += [f"idxcut {hx(w)}", f"gidxcut {hx(w)}"]
-    for _ in range(150 if not big else 4000):
+    for _ in range(150 if not big else 3000):
         b = _malformed(rng)
         st = 200 if rng.random() < 0.9 else rng.choice([204, 404, 500, 503])
         cases += [f"idx {st} {hx(b)}", f"gidx {st} {hx(b)}"]
@@ -271,7 +271,7 @@ def generate(rng, tier):
         cases += [f"idx 200 {hx(_render([long_]))}", f"gidx 200 {hx(_render([long_]))}",
                   f"idx 200 {hx(_render([b'a+1 1', long_])[:-1])}"]
     # producer
-    for _ in range(60 if not big else 1500):
+    for _ in range(60 if not big else 1000):
         cases.append(_gen_prod(rng))
     # (c) sweep abort
     combos = []
